@@ -230,11 +230,12 @@ class ConcatSignal(Module):
         dsens = [np.zeros_like(s.state) for s in self.sig_in]
         dx = _split_from_array(dy, self.cumlens)
         for i, s in enumerate(self.sig_in):
+            dxi = np.reshape(dx[i], np.shape(s.state))  # Scalars become 0-dimensional, matrices get their shape back
             if not isinstance(dsens[i], type(s.state)):
-                dsens[i] = type(s.state)(dx[i])
+                dsens[i] = type(s.state)(dxi)
                 continue
             try:
-                dsens[i][...] = dx[i]
+                dsens[i][...] = dxi
             except TypeError:
-                dsens[i] = type(s.state)(dx[i])
+                dsens[i] = type(s.state)(dxi)
         return dsens
